@@ -211,6 +211,9 @@ def gen(t, tier):
     # tiles out of the merged tiles of the inner one; tiles are only ever created, never rewritten, in these cases
     sc['cascade'] = backend == 'file' and not sc['two_sources'] and not sc['err404'] and bool(t.chance(0.15))
     sc['watermark'] = not sc['cascade'] and bool(t.chance(0.15))
+    # the source makes one colour transparent (a colour the simulated upstream never paints): every answer of the source -
+    # error fill images included - passes through that extra image operation
+    sc['transp_color'] = bool(t.chance(0.2))
     sc['wmsc2'] = sc['service'] == 'wmsc' and backend == 'file' and not (sc['cascade'] or sc['two_sources'] or sc['err404']) and \
         bool(t.chance(0.4))
     if sc['wmsc2']:
@@ -385,6 +388,8 @@ def _run(sc, tape):
                        refresh_before={'seconds': sc['refresh']} if sc['refresh'] else None,
                        on_error_color=sc['fill'],
                        link={'file-link': True, 'file-hardlink': 'hardlink'}.get(sc['backend'], False))
+    if sc.get('transp_color'):
+        conf['sources']['src']['image'] = {'transparent_color': '#0102fd', 'transparent_color_tolerance': 0}
     if sc.get('two_sources'):
         conf['sources']['src2'] = {'type': 'wms', 'req': {'url': 'http://upstream.sim/service?', 'layers': 'b'},
                                    'supported_srs': ['EPSG:3857'],
